@@ -707,6 +707,36 @@ func clone(x js_ast.Expr) js_ast.Expr {
 	return x // shared immutable singletons and opaque literals
 }
 
+// flips the mark of the first typeof found (in evaluation order)
+func flipTypeofMark(x js_ast.Expr) bool {
+	switch e := x.Data.(type) {
+	case *js_ast.EUnary:
+		if e.Op == js_ast.UnOpTypeof {
+			e.WasOriginallyTypeofIdentifier = !e.WasOriginallyTypeofIdentifier
+			return true
+		}
+		return flipTypeofMark(e.Value)
+	case *js_ast.EBinary:
+		return flipTypeofMark(e.Left) || flipTypeofMark(e.Right)
+	case *js_ast.EIf:
+		return flipTypeofMark(e.Test) || flipTypeofMark(e.Yes) || flipTypeofMark(e.No)
+	case *js_ast.EDot:
+		return flipTypeofMark(e.Target)
+	case *js_ast.EIndex:
+		return flipTypeofMark(e.Target) || flipTypeofMark(e.Index)
+	case *js_ast.ECall:
+		if flipTypeofMark(e.Target) {
+			return true
+		}
+		for _, a := range e.Args {
+			if flipTypeofMark(a) {
+				return true
+			}
+		}
+	}
+	return false
+}
+
 func nontrivial(x js_ast.Expr) bool {
 	switch x.Data.(type) {
 	case *js_ast.EBinary, *js_ast.EUnary, *js_ast.EIf, *js_ast.ECall, *js_ast.EArray, *js_ast.EObject, *js_ast.ETemplate, *js_ast.EDot, *js_ast.EIndex, *js_ast.EAnnotation:
@@ -760,7 +790,16 @@ func extraCases(r *Rng, n int, tier string, cf *CoqFile, st *Stats) {
 			a, b = g.lit(), g.lit()
 		case 1:
 			a = g.expr(2)
+			if r.Chance(30) {
+				a = mk(&js_ast.EUnary{Op: js_ast.UnOpTypeof, Value: g.ident(), WasOriginallyTypeofIdentifier: r.Bool()})
+				if r.Bool() {
+					a = mk(&js_ast.EIf{Test: g.ident(), Yes: a, No: g.lit()})
+				}
+			}
 			b = clone(a)
+			if r.Chance(35) {
+				flipTypeofMark(b) // same shape, different typeof-identifier mark
+			}
 		case 2:
 			a, b = g.expr(2), g.expr(2)
 		default:
